@@ -524,8 +524,12 @@ def _derivative_cases(style: str) -> list[tuple[str, str, dict]]:
         "norm(u)*v": lambda: VectorNorm(u) * v,
     }
     out = []
+    # orders 3 and 4 at once (a product node may have its own n-th derivative rule) for the
+    # expressions without norms, whose high derivatives stay small
+    high = ("u", "g*u", "dot(u,v)", "dot(u,u)", "dot(u,k)", "cross(u,v)", "cross(u,k)",
+        "mixed(u,v,w)", "dot(g*u,v+w)", "dot(u,v)*w", "cross(u+v,u-v)")
     for name, mk in exprs.items():
-        for order in (1, 2):
+        for order in ((1, 2, 3, 4) if name in high else (1, 2)):
             tag = f"d{order}/dt{order} {name} [{style}]"
             case = {"derivative": name, "order": order, "style": style}
             try:
@@ -539,6 +543,12 @@ def _derivative_cases(style: str) -> list[tuple[str, str, dict]]:
                     else:
                         want = sp.diff(base, tt, order)
                     ok = same_fn(got, want)
+                    if ok and order >= 3:
+                        # the same order asked for as a list of variables and through Derivative
+                        for alt in (e.diff(*([tt] * order)), sp.Derivative(e, (tt, order)).doit()):
+                            if not same_fn(lib_eval(alt, comp), want):
+                                ok = False
+                                d = alt
             except CaseTimeout:
                 out.append((tag, "differentiation does not terminate within 30 s", case))
                 continue
